@@ -1,3 +1,4 @@
+import os
 from vf.core import Property, Harness, Unit
 
 DESC = ('bluetoe::server<> with shared_write_queue<32>, two services, 6 characteristics (5 bound values, 1 read/write handler pair, '
@@ -12,13 +13,28 @@ UPL = [Unit('att_c05pl_%d' % sopt, shim='shims/att_c05pl.cpp', flags=['-DVF_C05_
 U2 = Unit('att_c05_2', shim='shims/att_c05.cpp', flags=['-DVF_C05_CFG=2'],
           description='small server for the range requests: one service, a protected (requires_encryption, with CCCD) and an unprotected characteristic of the same UUID and size')
 
-# direct requests on the mixed servers (CFG 0, 1): Read, Read Blob, Read Multiple, Write, Write Command, Prepare Write; Execute Write is MODE 1
-DIRECT_QUICK = {0x0a: [3], 0x0c: [5], 0x0e: [5, 7], 0x12: [4, 7], 0x52: [7], 0x16: [7]}
-DIRECT_THOROUGH = {0x0a: [2, 3, 4], 0x0c: [4, 5, 6], 0x0e: [4, 5, 7], 0x12: [3, 4, 5, 7, 8, 23], 0x52: [3, 5, 7, 23], 0x16: [5, 6, 9, 23], 0xd2: [19]}
-# range requests on the small server (CFG 2): Read By Type (16 and 128 bit type), Find Information, Find By Type Value, Read By Group Type,
-# plus the direct ones again; symbolic ranges over the 17 attributes of the mixed servers do not finish (measured: no verdict in 10 min)
-RANGE_QUICK = {0x08: [7], 0x06: [9], 0x0a: [3], 0x12: [5]}
-RANGE_THOROUGH = {0x08: [7, 21], 0x04: [5], 0x06: [7, 9, 11], 0x10: [7], 0x0a: [3], 0x0c: [5], 0x0e: [5, 7], 0x12: [3, 5, 7], 0x52: [5]}
+# direct requests on the mixed servers (CFG 0, 1): Read, Read Blob, Write, Write Command, Prepare Write; Execute Write is MODE 1.
+# (opcode, length, H1, H2, H3): Hn != 0 fixes the n-th 16 bit field of the PDU, 0 leaves it symbolic.
+# Read Multiple and the range requests with *symbolic* handles do not finish in the quick budget on the 17 attribute servers
+# (measured on the loaded machine: > 900 s per case; the loops of the inlined handlers get explicit bounds: 21 > number of attributes, 5 > handles); quick fixes the handle list / range per case (all other bytes, the type UUID,
+# all values and the pairing status stay symbolic), thorough adds the fully symbolic forms on the small server with a long timeout.
+def direct(q):
+    cs = [(0x0a, 3), (0x0c, 5), (0x12, 4), (0x12, 7), (0x52, 7), (0x16, 7)]
+    cs += [(0x0e, 5, 6, 3), (0x0e, 5, 3, 6), (0x0e, 5, 12, 17), (0x0e, 7, 12, 6, 14), (0x0e, 7, 14, 3, 9)]
+    cs += [(0x08, 7, 1, 0xffff), (0x08, 7, 5, 14)]
+    if not q:
+        cs += [(0x0a, 2), (0x0a, 4), (0x0c, 4), (0x0c, 6), (0x12, 3), (0x12, 5), (0x12, 8), (0x12, 23), (0x52, 3), (0x52, 5), (0x52, 23),
+               (0x16, 5), (0x16, 6), (0x16, 9), (0x16, 23), (0xd2, 19), (0x0e, 4), (0x0e, 5, 4, 7), (0x0e, 5, 7, 4), (0x0e, 7, 3, 6, 9), (0x0e, 7, 6, 4, 3),
+               (0x08, 7, 1, 9), (0x08, 7, 10, 17), (0x08, 7, 3, 3), (0x08, 21, 1, 0xffff), (0x04, 5, 1, 0xffff), (0x06, 9, 1, 0xffff), (0x10, 7, 1, 0xffff)]
+    return cs
+
+
+# small server (CFG 2)
+def ranges(q):
+    cs = [(0x08, 7, 1, 0xffff), (0x08, 7, 3, 6), (0x06, 9), (0x0a, 3), (0x12, 5), (0x0e, 5, 6, 3), (0x0e, 5)]
+    if not q:
+        cs += [(0x08, 7), (0x08, 21), (0x04, 5), (0x06, 7), (0x06, 11), (0x10, 7), (0x0c, 5), (0x0e, 7), (0x12, 3), (0x12, 7), (0x52, 5)]
+    return cs
 
 
 def cases_for(cfg):
@@ -27,34 +43,37 @@ def cases_for(cfg):
 
 def cases(tier, cfg):
     q = tier == 'quick'
-    lens = (RANGE_QUICK if q else RANGE_THOROUGH) if cfg == 2 else (DIRECT_QUICK if q else DIRECT_THOROUGH)
     cs = []
-    for opc, ls in sorted(lens.items()):
-        for l in ls:
-            cs.append({'CFG': cfg, 'MODE': 0, 'OPC': opc, 'LEN': l, 'QN': 0, 'QL': 0})
+    for t in (ranges(q) if cfg == 2 else direct(q)):
+        t = tuple(t) + (0, 0, 0)
+        cs.append({'CFG': cfg, 'MODE': 0, 'OPC': t[0], 'LEN': t[1], 'H1': t[2], 'H2': t[3], 'H3': t[4], 'QN': 0, 'QL': 0})
     if cfg != 2:
         # Execute Write on a symbolic queue: (elements, data bytes per element)
         for qn, ql in ([(1, 2)] if q else [(1, 0), (1, 1), (1, 4), (1, 20), (2, 2), (3, 1)]):
-            cs.append({'CFG': cfg, 'MODE': 1, 'OPC': 0x18, 'LEN': 2, 'QN': qn, 'QL': ql})
-    cs.append({'CFG': cfg, 'MODE': 2, 'OPC': 0, 'LEN': 0, 'QN': 0, 'QL': 0})
+            cs.append({'CFG': cfg, 'MODE': 1, 'OPC': 0x18, 'LEN': 2, 'H1': 0, 'H2': 0, 'H3': 0, 'QN': qn, 'QL': ql})
+    cs.append({'CFG': cfg, 'MODE': 2, 'OPC': 0, 'LEN': 0, 'H1': 0, 'H2': 0, 'H3': 0, 'QN': 0, 'QL': 0})
+    only = os.environ.get('C05_ONLY_OPC')          # debugging aid: restrict to some opcodes, e.g. C05_ONLY_OPC=22,24
+    if only:
+        cs = [c for c in cs if str(c['OPC']) in only.split(',')]
     return cs
 
 
 def placements_for(sopt):
-    # quick: service / characteristic option symbolic (16 placements per query); thorough: one query per placement
-    return lambda tier: [{'S': sopt, 'VC': -1}] if tier == 'quick' else [{'S': sopt, 'VC': vc} for vc in range(16)]
+    # one query per placement (a symbolic placement id over 16 servers did not finish in 600 s); quick: a 16 of 64 subset in which every
+    # option appears 4 times on every level ((s + v + c) % 4 == 0), thorough: all 64
+    return lambda tier: [{'S': sopt, 'VC': vc} for vc in range(16) if tier != 'quick' or (sopt + (vc >> 2) + (vc & 3)) % 4 == 0]
 
 
 PROPERTY = Property(
     'C05',
-    [Harness('c05_enc%d' % c, u, 'harness/c05_enc.c', cases_for(c), unwind=40, timeout=900, object_bits=13, diff_cases=4,
+    [Harness('c05_enc%d' % c, u, 'harness/c05_enc.c', cases_for(c), unwind=40, unwindset=['vf_c05_input.0:21', 'vf_c05_input.1:21', 'vf_c05_input.2:5'], timeout=1800, object_bits=13, diff_cases=2, diff_iters=60,
              description='self-composition on an unencrypted link (server variant %d): same request on two server states that differ only in protected values / protected '
                          'CCCD bits / what the protected read handler returns; outputs identical, protected state unchanged, protected handlers not invoked, '
                          'unprotected post-state identical; rejection code 0x05 without key / 0x0F with key for direct access' % c,
              bounds='request opcode x length from the case table (all other PDU bytes symbolic); client MTU 23; Read Multiple up to 3 handles; '
                     'Execute Write on queues of 1..3 well-formed elements; l2cap_output with one queued notification or indication')
      for c, u in ((0, U0), (1, U1), (2, U2))] +
-    [Harness('c05_inherit%d' % sopt, UPL[sopt], 'harness/c05_inherit.c', placements_for(sopt), unwind=8, timeout=600, object_bits=12, diff_cases=4,
+    [Harness('c05_inherit%d' % sopt, UPL[sopt], 'harness/c05_inherit.c', placements_for(sopt), unwind=8, timeout=600, object_bits=12, diff_cases=1, diff_iters=100,
              description='server level option %d x all 16 placements of {none, requires_encryption, no_encryption_required, may_require_encryption} on service x characteristic: '
                          'read and write access to the value attribute and to the CCCD, link security symbolic, accepted iff the documented inheritance rule says so' % sopt,
              bounds='one characteristic with a 1 byte bound value and a CCCD; access through server::attribute_at(i).access(), the call every ATT handler makes')
@@ -75,6 +94,6 @@ PROPERTY = Property(
                 'the option inheritance is decided for all 64 placements against the documented rule',
     outside=['sequences of requests other than (arbitrary queue state, Execute Write) and (arbitrary CCCD state, queue, output): the server keeps no other state between requests',
              'encrypted links in the mixed servers (covered for value semantics by C06 and for the placements by c05_inherit)',
-             'MTU other than 23; Read Multiple with more than 3 handles (quick: 2/3 handles)',
+             'MTU other than 23; Read Multiple with more than 3 handles', 'quick tier: Read Multiple handle lists and Read By Type ranges are the ones of the case table (type UUID symbolic); 16 of the 64 placements',
              'authentication / authorisation levels beyond "encrypted": bluetoe has no such options'],
 )
